@@ -257,13 +257,13 @@ def run(F, R, tier):
             a = arms.get(op)
             if not R.anchor("VM::run arm " + op, a):
                 continue
-            cs = [c for c in H.walk(a["body"]) if c.get("k") in ("call", "mcall") and c.get("callee") in (disp["binary"], disp["bitwise"]) and c.get("callee")]
+            cs = [c for c in H.walk(H.unlet(a["body"])) if c.get("k") in ("call", "mcall") and c.get("callee") in (disp["binary"], disp["bitwise"]) and c.get("callee")]
             ok = len(cs) == 1
             det = "no binary_op/bitwise_op call"
             if ok:
                 c = cs[0]
                 args = c["args"]
-                clo = [x for x in args if x.get("k") == "closure"]
+                clo = [H.strip(x) for x in args if H.strip(x).get("k") == "closure"]
                 is_bin = c.get("callee") == disp["binary"]
                 gotcls = H.last(H.ctor_of(H.strip(args[0])) or "") if is_bin else None
                 b = H.strip(clo[0]["body"]) if clo else {}
@@ -421,16 +421,47 @@ def run(F, R, tier):
                     ok = conv(ae) == conv(ap) and ke[2] == kp[2]
                 R.ob("eq-ord-siblings", "(%s, %s)" % (va, vb), ok, det, F.loc(fpo, ap.get("line")))
     if arms and arms.get("Equal") and arms.get("NotEqual"):
-        def cmp_of(a, sym):
-            bs = [x for x in H.walk(a["body"]) if x.get("k") == "bin" and x["op"] == sym]
-            return (bs[0].get("callee"), H.render(bs[0]["l"]), H.render(bs[0]["r"]), bs[0]["l"].get("ty"), bs[0]["r"].get("ty")) if bs else None
-        e, n = cmp_of(arms["Equal"], "=="), cmp_of(arms["NotEqual"], "!=")
-        # both sides must be `&Object` (or `Object`) values, so that == / != dispatch to Object::eq — comparing the
-        # Rc handles instead goes through Rc's pointer-identity shortcut
         objty = ("&object::Object", "object::Object")
         fwd = "std::cmp::impls::<impl std::cmp::PartialEq<&B> for &A>::"
-        ok = e is not None and n is not None and e[3] in objty and e[4] in objty and n[3] in objty and n[4] in objty and \
-            e[0] in (fwd + "eq", "<object::Object as std::cmp::PartialEq>::eq") and \
-            n[0] in (fwd + "ne", "<object::Object as std::cmp::PartialEq>::ne", "std::cmp::PartialEq::ne") and e[1:3] == n[1:3]
+        EQS = (fwd + "eq", "<object::Object as std::cmp::PartialEq>::eq", fwd + "ne", "<object::Object as std::cmp::PartialEq>::ne", "std::cmp::PartialEq::ne")
+
+        def cmp_of(a):
+            """(the value pushed is true exactly when the operands are equal?, through Object's PartialEq?, rendering) — the
+            pushed boolean is normalised: `!e`, `e == true`, `e == false`, `a != b` all fold into a polarity over one
+            comparison of the two popped values"""
+            body = H.unlet(a["body"])
+            pushes = [c for c in H.walk(body) if c.get("k") == "mcall" and c["m"] == "push" and c.get("args")]
+            if len(pushes) != 1:
+                return None
+            bools = [c for c in H.walk(pushes[0]["args"][0]) if c.get("k") == "call" and H.last(c.get("ctor") or "") == "Bool"]
+            if len(bools) != 1:
+                return None
+            e = H.strip(bools[0]["args"][0])
+            pol = True
+            for _ in range(6):
+                if e.get("k") == "un" and e.get("op") == "!":
+                    pol, e = not pol, H.strip(e["e"])
+                    continue
+                if e.get("k") == "bin" and e["op"] in ("==", "!="):
+                    l, r = H.strip(e["l"]), H.strip(e["r"])
+                    lit = l if (l.get("k") == "lit" and l.get("lk") == "bool") else (r if (r.get("k") == "lit" and r.get("lk") == "bool") else None)
+                    if lit is not None:
+                        other = r if lit is l else l
+                        if (lit["v"] is True) != (e["op"] == "=="):
+                            pol = not pol
+                        e = other
+                        continue
+                break
+            if not (e.get("k") == "bin" and e["op"] in ("==", "!=")):
+                return None
+            if e["op"] == "!=":
+                pol = not pol
+            through = e.get("callee") in EQS and e["l"].get("ty") in objty and e["r"].get("ty") in objty
+            pops = len([c for c in H.walk(body) if c.get("k") == "mcall" and c["m"] == "pop"])
+            return (pol, through and pops == 2, "%s%s" % ("" if pol == (e["op"] == "==") else "!", H.render(e)[:90]))
+        e, n = cmp_of(arms["Equal"]), cmp_of(arms["NotEqual"])
+        # both sides must be `&Object` (or `Object`) values, so that == / != dispatch to Object::eq — comparing the
+        # Rc handles instead goes through Rc's pointer-identity shortcut
+        ok = e is not None and n is not None and e[0] is True and n[0] is False and e[1] and n[1]
         R.ob("eq-ne-siblings", "Equal / NotEqual compare through Object::eq", ok, "Equal: %s; NotEqual: %s" % (e, n),
              "src/vm/interpreter.rs:%s" % arms["NotEqual"]["line"])
